@@ -268,10 +268,118 @@ fn check_case(st: &mut St, c: &Case, full_comp: usize) {
     st.distinct.add(exp.calls.iter().flatten().fold(0xcbf29ce484222325u64, |h, &b| (h ^ b as u64).wrapping_mul(0x100000001b3)));
 }
 
+/// Messages in which a *faulty* unit precedes the payload unit: "all units of that message
+/// execute exactly as they would without the embedded newline".  Differential: the payload P
+/// and its twin P' (every newline replaced by 'x') must give the same errors, output and calls
+/// (the calls compared after replacing P by P' in the log), through run and every chunking.
+fn check_faulty_prefix(st: &mut St, prefix: &[u8], slot: usize, enc: Enc, payload: &[u8], full_comp: usize) {
+    st.cases += 1;
+    let twin: Vec<u8> = payload.iter().map(|&b| if b == b'\n' { b'x' } else { b }).collect();
+    let build = |p: &[u8]| -> Vec<u8> {
+        let s = &SLOTS[slot];
+        let mut m = prefix.to_vec();
+        m.extend_from_slice(b";:A:");
+        m.extend_from_slice(s.leaf.as_bytes());
+        m.push(b' ');
+        if let Some((t, _)) = s.before {
+            m.extend_from_slice(t.as_bytes());
+            m.push(b',');
+        }
+        enc.encode(p, &mut m);
+        if let Some((t, _)) = s.after {
+            m.push(b',');
+            m.extend_from_slice(t.as_bytes());
+        }
+        m.extend_from_slice(b";:E\n");
+        m
+    };
+    let m = build(payload);
+    let mt = build(&twin);
+    let norm = |o: &Obs| -> Obs {
+        // replace the payload by its twin inside the logged calls
+        let mut o2 = o.clone();
+        for c in o2.calls.iter_mut() {
+            if let Some(pos) = c.windows(payload.len().max(1)).position(|w| w == payload) {
+                if !payload.is_empty() {
+                    c.splice(pos..pos + payload.len(), twin.iter().copied());
+                }
+            }
+        }
+        o2
+    };
+    let (_, reference) = run_obs(&mt, Pattern::NONE);
+    st.execs += 1;
+    let mut judge = |engine: &str, n: usize, sizes: &[usize], obs: Obs, st: &mut St| {
+        if norm(&obs) != reference {
+            let f = vec![
+                ("engine", engine.to_string()),
+                ("encoding", enc.name().to_string()),
+                ("payload_contains_newline", "true".to_string()),
+                ("faulty_unit_before_payload", "true".to_string()),
+                ("spurious_error", (obs.errs.len() > reference.errs.len()).to_string()),
+                ("calls_as_expected", (norm(&obs).calls == reference.calls).to_string()),
+            ];
+            st.groups.add("payload-verbatim", &f, (m.len() * 1000 + sizes.len(), &m), || {
+                (
+                    json!({"engine": engine, "n": n, "input": hex(&m), "sizes": sizes, "twin": hex(&mt)}),
+                    format!(
+                        "{engine}(\"{}\") sizes {:?}: observed {} ; the same message with every payload newline replaced by 'x' gives {}",
+                        show(&m),
+                        sizes,
+                        obs.show(),
+                        reference.show()
+                    ),
+                )
+            });
+        }
+    };
+    let (o, obs) = run_obs(&m, Pattern::NONE);
+    st.execs += 1;
+    if o.end == End::Returned {
+        judge("run", 0, &[], obs, st);
+    }
+    for n in n_for(m.len()).into_iter().take(2) {
+        let mut one = |sizes: &[usize], st: &mut St| {
+            let (o, obs) = proc_obs(n, &m, sizes, Pattern::NONE);
+            st.execs += 1;
+            st.chunkings += 1;
+            if o.end == End::Returned {
+                judge("process", n, sizes, obs, st);
+            }
+        };
+        if m.len() <= full_comp {
+            env::compositions(m.len(), |s| one(s, st));
+        } else {
+            env::cuts_up_to(m.len(), 1, |s| one(s, st));
+            one(&env::regular(m.len(), 1), st);
+        }
+    }
+}
+
 fn replay(path: &str) -> ! {
     let j: J = serde_json::from_str(&std::fs::read_to_string(path).unwrap()).unwrap();
     let w = &j["witness"];
     let input = unhex(w["input"].as_str().unwrap());
+    if let Some(tw) = w["twin"].as_str() {
+        let twin = unhex(tw);
+        let mut bad = [false; 2];
+        for r in 0..2 {
+            let (_, reference) = run_obs(&twin, Pattern::NONE);
+            let obs = if w["engine"] == "run" {
+                run_obs(&input, Pattern::NONE).1
+            } else {
+                let n = w["n"].as_u64().unwrap() as usize;
+                let sizes: Vec<usize> = w["sizes"].as_array().unwrap().iter().map(|v| v.as_u64().unwrap() as usize).collect();
+                proc_obs(n, &input, &sizes, Pattern::NONE).1
+            };
+            println!("round {r}: \"{}\": {}", show(&input), obs.show());
+            println!("round {r}: twin \"{}\": {}", show(&twin), reference.show());
+            // errors / output / number of calls must agree (the payload itself differs by construction)
+            bad[r] = obs.errs != reference.errs || obs.out != reference.out || obs.calls.len() != reference.calls.len();
+        }
+        println!("{}", if bad[0] && bad[1] { "REPRODUCED" } else { "NOT-REPRODUCED" });
+        std::process::exit(if bad[0] && bad[1] { 1 } else { 0 });
+    }
     let exp_calls: Vec<Vec<u8>> = w["expected_calls"].as_array().unwrap().iter().map(|c| unhex(c.as_str().unwrap())).collect();
     let exp = Obs { calls: exp_calls, errs: vec![], out: vec![] };
     let mut bad = [false; 2];
@@ -340,10 +448,29 @@ fn main() {
             }
         }
     }
+    // faulty unit before the payload unit
+    let mut fcases: Vec<(&'static [u8], usize, Enc, Vec<u8>)> = vec![];
+    for prefix in [&b"Z"[..], b"@", b"B 300", b"A:X", b"A:B 1", b"B 1 2"] {
+        for (si, s) in SLOTS.iter().enumerate().take(4) {
+            let encs: &[Enc] = if s.block { &[Enc::Block] } else { &[Enc::Single, Enc::Double] };
+            for &enc in encs {
+                for p in [&b"\n"[..], b"a\nb", b"\n:E\n", b"x\n*R\n", b";\n,", b"\n\n"] {
+                    fcases.push((prefix, si, enc, p.to_vec()));
+                }
+            }
+        }
+    }
     let cases = &cases;
-    let res = par::run_simple(cases.len().div_ceil(16), args.threads, args.seed, St::default, |st, p| {
-        for c in cases[p * 16..].iter().take(16) {
-            check_case(st, c, full_comp);
+    let fcases = &fcases;
+    let nparts = cases.len().div_ceil(16);
+    let res = par::run_simple(nparts + fcases.len(), args.threads, args.seed, St::default, |st, p| {
+        if p < nparts {
+            for c in cases[p * 16..].iter().take(16) {
+                check_case(st, c, full_comp);
+            }
+        } else {
+            let f = &fcases[p - nparts];
+            check_faulty_prefix(st, f.0, f.1, f.2, &f.3, full_comp);
         }
     });
     let mut out = Outcome::new("C08");
@@ -378,6 +505,7 @@ fn main() {
                "unit_positions": [0, 1, 2], "other_units": "relative B and E (resolve to A:B / A:E only with intact path context)",
                "chunkings": format!("all compositions up to {full_comp} bytes, else every single cut and every pair of cuts + regular 1/2/3"),
                "N": "smallest instantiated N >= |m|, next larger, >= 2|m|, 64",
+               "faulty_unit_before_the_payload": {"prefix_units": ["Z", "@", "B 300", "A:X", "A:B 1", "B 1 2"], "cases": fcases.len(), "oracle": "same observation as with every payload newline replaced by 'x'"},
                "cases": t.cases, "cases_with_newline_in_payload": t.newline_payloads, "process_executions": t.chunkings}),
     );
     out.cov("skipped_crashing_executions", t.crashed);
